@@ -2019,7 +2019,7 @@ def run_r4(repo: Repo, res: Result) -> None:
 # --------------------------------------------------------------------------- R5
 
 
-def selections(repo: Repo, order: "Order | None" = None) -> list[dict]:
+def selections(repo: Repo, order: "Order | None" = None, reach=None) -> list[dict]:
     """Loops whose keep / drop decisions read state accumulated by earlier iterations (c15_selection.py), with the nature of the
     collection they run over: unordered (set / hash order), listing (directory enumeration), listed (any other sequence)."""
     from . import c15_selection as sel
@@ -2028,6 +2028,22 @@ def selections(repo: Repo, order: "Order | None" = None) -> list[dict]:
     order = order or Order(repo)
     out = []
     n_loops = 0
+    # is the value stored in a table a pure function (c15_memo.py: no effects, no state that changes)?
+    try:
+        eng = memo_engine(repo, reach)
+    except AnalysisError:
+        raise
+    except Exception:  # noqa: BLE001
+        eng = None
+
+    def pure(fn: FuncInfo, nodes: list) -> str | None:
+        if eng is None:
+            return "no classifier"
+        try:
+            return eng._pure_body(fn, nodes, 0, (), skip_attr="\0")
+        except Exception:  # noqa: BLE001
+            return "could not be analysed"
+
     for f in repo.all_functions():
         if isinstance(f.node, ast.Lambda) or not any(isinstance(n, (ast.For, ast.AsyncFor, ast.While)) for n in own_nodes(f.node)):
             continue
@@ -2040,7 +2056,7 @@ def selections(repo: Repo, order: "Order | None" = None) -> list[dict]:
             if src is not None and src[0] != f:
                 continue  # a loop of an expanded helper: judged in the helper itself
             n_loops += 1
-            findings = sel.analyse(info)
+            findings = sel.analyse(info, pure)
             if not findings:
                 continue
             nature = _order_nature(order, v, info.source)
@@ -2133,8 +2149,8 @@ def run_r5(repo: Repo, res: Result, order: "Order | None" = None) -> None:
 
     tmp, frepo = _fixture_repo("selection.py")
     try:
-        flagged = {s["f"].name for s in selections(frepo)[1:]}
-        want = {"bad_first_physical_location_wins", "bad_case_insensitive_first_wins", "bad_parents_retained_so_far", "bad_parents_retained_so_far_through_helper", "bad_first_three", "bad_listing_prefix_filter", "bad_flag_loop_over_retained", "bad_test_and_set_helper_decides"}
+        flagged = {s["f"].name for s in selections(frepo, None, frepo.all_functions())[1:]}
+        want = {"bad_first_physical_location_wins", "bad_case_insensitive_first_wins", "bad_parents_retained_so_far", "bad_parents_retained_so_far_through_helper", "bad_first_three", "bad_listing_prefix_filter", "bad_flag_loop_over_retained", "bad_test_and_set_helper_decides", "bad_links_established_by_parent_only", "bad_compiled_pattern_memo_keyed_loosely"}
         if flagged != want:
             raise AnalysisError(f"C15.R5 fixture: order-dependent selections not recognised exactly (flagged {sorted(flagged)}, want {sorted(want)})")
         res.add("C15.R5", "fixture::engine/rules/c15_fixtures/selection.py", True, f"positive fixture recognised: {sorted(flagged)}; de-duplication on the element, sorted input, tests against the complete input, grouping and closure idioms accepted", nontrivial=False)
